@@ -138,6 +138,36 @@ func vgFamilyTypeless() *vgFamily {
 	)
 }
 
+// family 4: extensions declared in another file than their extendee (known extensions pull that file in), next to
+// unrelated content; the extending file also has a weak import.
+func vgFamilyCrossFileExtensions() *vgFamily {
+	base := &descriptorpb.FileDescriptorProto{
+		Name: vgS("base.proto"), Package: vgS("e"), Syntax: vgS("proto2"),
+		MessageType: []*descriptorpb.DescriptorProto{
+			{Name: vgS("Base"), ExtensionRange: []*descriptorpb.DescriptorProto_ExtensionRange{{Start: vgI(100), End: vgI(200)}}},
+			{Name: vgS("Plain")},
+		},
+	}
+	weak := &descriptorpb.FileDescriptorProto{
+		Name: vgS("weak.proto"), Package: vgS("w"), Syntax: vgS("proto2"),
+		MessageType: []*descriptorpb.DescriptorProto{{Name: vgS("W")}},
+	}
+	ext := &descriptorpb.FileDescriptorProto{
+		Name: vgS("x.proto"), Package: vgS("x"), Syntax: vgS("proto2"),
+		Dependency: []string{"base.proto", "weak.proto"}, WeakDependency: []int32{1},
+		MessageType: []*descriptorpb.DescriptorProto{
+			{Name: vgS("Payload")},
+			{Name: vgS("Unrelated"), Field: []*descriptorpb.FieldDescriptorProto{vgMsgField("p", 1, ".e.Plain"), vgMsgField("w", 2, ".w.W")}},
+		},
+		Extension: []*descriptorpb.FieldDescriptorProto{vgExtends(vgMsgField("px", 100, ".x.Payload"), ".e.Base")},
+	}
+	return vgFinishFamily(
+		[]*descriptorpb.FileDescriptorProto{base, weak, ext}, []bool{false, false, false},
+		[]string{"e.Base", "x.Payload", "x.px", "x.Unrelated", "e.Plain", "w.W", "x"},
+		"x",
+	)
+}
+
 func vgBuildFamily(k int) *vgFamily {
 	switch k {
 	case 0:
@@ -146,6 +176,8 @@ func vgBuildFamily(k int) *vgFamily {
 		return vgFamilyService()
 	case 2:
 		return vgFamilyExtensions()
+	case 4:
+		return vgFamilyCrossFileExtensions()
 	default:
 		return vgFamilyTypeless()
 	}
@@ -412,6 +444,9 @@ func (f *vgFilter) checkUnchanged(result []*descriptorpb.FileDescriptorProto) {
 						encloses = true
 					}
 				}
+				if verifKnown("F6g-extendee-of-dropped-extension", !encloses && f.extendeeOfDroppedExtension(name, "")) {
+					return
+				}
 				verifAssert(encloses, "an unrequested, unreferenced message or service survives only as a namespace for something needed")
 			case vgKindExtension:
 				verifAssert(!f.noKnownExt, "an unrequested extension does not survive when known extensions are excluded")
@@ -425,6 +460,9 @@ func (f *vgFilter) checkUnchanged(result []*descriptorpb.FileDescriptorProto) {
 	for _, fd := range result {
 		used := vgUsedFiles(result, resTable, fd)
 		for _, dep := range fd.GetDependency() {
+			if verifKnown("F6g-extendee-of-dropped-extension", !used[dep] && f.importOfDroppedExtension(fd.GetName(), dep)) {
+				return
+			}
 			verifAssert(used[dep], "every remaining import is used")
 		}
 	}
@@ -491,6 +529,7 @@ func vgRunFilterLemma(familyIndex int) {
 		}
 		verifAssert(imageFile.IsImport() == filter.isImportFile(imageFile.Path()), "import flags are preserved")
 		vgCheckSourceInfo(fam.spec.names, imageFile.FileDescriptorProto(), orig)
+		vgCheckWeak(imageFile.FileDescriptorProto(), orig)
 	}
 	if len(got.Files()) < len(fam.spec.files) {
 		verifCover("a file was dropped")
@@ -506,6 +545,23 @@ func vgRunFilterLemma(familyIndex int) {
 	}
 	verifAssert(vgSameStrings(vgFingerprint(again), before), "filtering twice equals filtering once")
 	verifCover("idempotent")
+}
+
+// vgCheckWeak: a surviving import is weak iff it was weak in the original file.
+func vgCheckWeak(fd *descriptorpb.FileDescriptorProto, orig *descriptorpb.FileDescriptorProto) {
+	wasWeak := map[string]bool{}
+	for _, idx := range orig.GetWeakDependency() {
+		wasWeak[orig.GetDependency()[idx]] = true
+	}
+	isWeak := map[string]bool{}
+	for _, idx := range fd.GetWeakDependency() {
+		if int(idx) < len(fd.GetDependency()) {
+			isWeak[fd.GetDependency()[idx]] = true
+		}
+	}
+	for _, dep := range fd.GetDependency() {
+		verifAssert(isWeak[dep] == wasWeak[dep], "a surviving import is weak iff it was weak before")
+	}
 }
 
 // ---- input classes of the recorded findings (see notes/findings-grpG.md) ----
@@ -635,6 +691,28 @@ func (f *vgFilter) classRequestTypeMarkedExcluded() bool {
 	return false
 }
 
+// F6g: an extension that is walked by the closure (not excluded itself) is dropped because its value type is excluded,
+// but its extendee (and the import of the extendee's file) had already been added to the closure.
+func (f *vgFilter) extendeeOfDroppedExtension(extendee string, inFile string) bool {
+	for _, name := range f.table.order {
+		sym := f.table.syms[name]
+		if sym.kind == vgKindExtension && !f.isExcluded(name) && f.fieldTypeExcluded(sym.field) &&
+			vgTrimDot(sym.field.GetExtendee()) == extendee && (inFile == "" || sym.file == inFile) {
+			return true
+		}
+	}
+	return false
+}
+
+func (f *vgFilter) importOfDroppedExtension(file string, dep string) bool {
+	for _, name := range f.table.order {
+		if sym := f.table.syms[name]; sym.kind == vgKindMessage && sym.file == dep && f.extendeeOfDroppedExtension(name, file) {
+			return true
+		}
+	}
+	return false
+}
+
 // softConflict: an included extension whose value type is excluded.
 func (f *vgFilter) softConflict() bool {
 	for _, inc := range f.includes {
@@ -651,3 +729,4 @@ func VerifLemma_C12C_FilterNested()     { vgRunFilterLemma(0) }
 func VerifLemma_C12C_FilterService()    { vgRunFilterLemma(1) }
 func VerifLemma_C12C_FilterExtensions() { vgRunFilterLemma(2) }
 func VerifLemma_C12C_FilterTypeless()   { vgRunFilterLemma(3) }
+func VerifLemma_C12C_FilterCrossFile()  { vgRunFilterLemma(4) }
